@@ -724,6 +724,21 @@ def register_all(M):
         while s and c.decide(is_whitespace(s[0])):
             s.pop(0)
         return Str(s)
+    def trim_matches_char(where):
+        def f(c, m, a):
+            s = list(as_str(a[0]).chars)
+            ch = deref(a[1])
+            if where in ("start", "both"):
+                while s and c.decide(char_eq(s[0], ch)):
+                    s.pop(0)
+            if where in ("end", "both"):
+                while s and c.decide(char_eq(s[-1], ch)):
+                    s.pop()
+            return Str(s)
+        return f
+    M.add(r"core::str::<impl str>::trim_start_matches::<char>", trim_matches_char("start"))
+    M.add(r"core::str::<impl str>::trim_end_matches::<char>", trim_matches_char("end"))
+    M.add(r"core::str::<impl str>::trim_matches::<char>", trim_matches_char("both"))
     M.add(r"core::str::<impl str>::trim_end", trim_end)
     M.add(r"core::str::<impl str>::trim_start", trim_start)
     M.add(r"core::str::<impl str>::trim", lambda c, m, a: trim_end(c, m, [trim_start(c, m, a)]))
